@@ -12,24 +12,31 @@ def run(ctx):
     ctx.rule = ("MC: every value of 0..3 files (body lengths 0,1,4,5,33; ASCII and 2-byte Shift-JIS names), padded and "
                 "un-padded, every record permutation, 3 placements of bodies/Count/Info (+ unaligning lead gap), with and "
                 "without the extra labels real files carry; every planted error (no Count, no Info, record without name, "
-                "range past the end / starting past the end) on every record; thorough adds seeded pseudo-random layouts "
+                "range past the end / starting past the end) on every record, and out-of-range offset / size WORDS across the u32 "
+                "range (far past the end, around 2^31, 2^32-0x61, the top 0x60 values that wrap into the zero header, sums "
+                "that are small only modulo 2^32) in the padded and un-padded variant; thorough adds seeded pseudo-random layouts "
                 "with 4..7 files. spec->impl: arc::from_bytes on BinFormat!Canon(content) (and on the image mila's own "
                 "writer builds from the content when it differs, and for <= 2 files on a non-canonical image: reversed tables, "
                 "duplicated text section) compared with the reference extraction as a map, or "
-                "required to be Err. impl->spec: seeded random arcs up to 60 files built by the harness plus ArcTest.arc; "
+                "required to be Err, under the release (wrapping) AND the checked (panicking) build. impl->spec: seeded random arcs up to 60 files built by the harness plus ArcTest.arc; "
                 "TLC decides conformance of the logged content and the allowed result. Non-trivial = at least one file "
                 "or a planted error.")
     binary = ctx.build("release", "mvh_cont")
-    actions = ["PickValue", "PickLayout", "PickError"] + ([] if ctx.quick() else ["PickSeed", "StepSeed"])
+    actions = ["PickValue", "PickLayout", "PickError", "PickWordError"] + ([] if ctx.quick() else ["PickSeed", "StepSeed"])
     cc.model_check(ctx, "MC_Arc3ds", actions)
     cases = cc.generate(ctx, "MC_Arc3ds", "Gen_Arc3ds.cfg")
     summ, mism, unb = cc.replay(ctx, binary, "arc-replay", cases, "arc")
-    for profile, ms in (("release", mism), ("checked", cc.replay_checked(ctx, "arc-replay", cases, "arc"))):
+    # both arithmetic regimes in both tiers: out-of-range 32-bit fields wrap in release and panic in checked
+    checked = ctx.build("checked", "mvh_cont")
+    summ_c, mism_c, unb_c = cc.replay(ctx, checked, "arc-replay", cases, "arc_checked")
+    ctx.traces += summ_c["images"]
+    for profile, ms in (("release", mism), ("checked", mism_c)):
         for o in ms:
             c = cases[o["i"]]
             ctx.violation({"dir": "spec->impl", "profile": profile, "what": o["what"], "layout": c["kind"], "padded": c["padded"],
+                           "planted": {k: x for k, x in c["err"].items() if k != "kind"},
                            "files": len(c["v"]), "lens": [len(f[1]) for f in c["v"]], "got": cc.shrink(o["got"], 400)},
-                          {"case": c, "got": cc.shrink(o["got"], 20000)})
+                          {"case": c, "got": cc.shrink(o["got"], 20000), "profile": profile})
     ctx.extra["built_images_not_judged_container_mismatch"] = summ.get("container_mismatch", 0)
     ctx.traces += summ["images"]
     ctx.evaluations += summ["images"]
@@ -45,15 +52,21 @@ def run(ctx):
     # impl -> spec
     runs, max_files = ctx.pick((400, 60), (10000, 60))
     tpath = ctx.path("arc_trace.ndjson")
-    ctx.harness(binary, ["arc-record", tpath, str(runs), str(max_files)])
-    events = vlib.read_ndjson(tpath)
+    events = []
+    for profile, b in (("release", binary), ("checked", checked)):
+        ppath = ctx.path("arc_trace_%s.ndjson" % profile)
+        ctx.harness(b, ["arc-record", ppath, str(runs // 2), str(max_files)])
+        for e in vlib.read_ndjson(ppath):
+            e["profile"] = profile
+            events.append(e)
+    vlib.write_ndjson(tpath, events)
     if any(e["kind"] == "unbuildable" for e in events):
         raise vlib.ToolError("harness could not build an arc image: %s" % [e["result"] for e in events if e["kind"] == "unbuildable"][:1])
     rep = cc.validate(ctx, "Trace_Arc3ds", tpath, len(events))
     for b in rep["bad"]:
         ev = events[b["i"] - 1]
         res = ev["result"]
-        ctx.violation({"dir": "impl->spec", "failed": b["why"], "src": ev["src"], "layout": ev["kind"],
+        ctx.violation({"dir": "impl->spec", "profile": ev["profile"], "failed": b["why"], "src": ev["src"], "layout": ev["kind"],
                        "result": {k: res[k] for k in res if k != "files"}, "files_returned": len(res.get("files", []))},
                       cc.event_detail(ev, b["i"]))
     if rep["odd"] and not ctx.viol:
@@ -74,7 +87,8 @@ def run(ctx):
                         "file images are BinFormat!Canon(content) as specified in spec/BinFormat.tla (C01/C02); random arcs "
                         "are turned into bytes by mila's own BinArchive writer (proj::build + serialize), which C01/C02 check",
                         "any Err is accepted for an error layout (the statement does not name the error kinds)",
-                        "u32 overflow / oversized fields / malformed containers are C05, not exercised here",
+                        "malformed containers and count fields beyond the data region are C05, not exercised here; record offsets and "
+                        "sizes are exercised over the whole u32 range in both build profiles",
                         "names are taken from the lossless Shift-JIS domain; the codec (encoding_rs) is trusted"]
     cc.finish_unbuildable(ctx, unb)
 
